@@ -525,7 +525,11 @@ def run(ctx):
         for sig, what in r[1]:
             ctx.violation("diagnostic:%s" % sig, "%s [N=%d masses=%s variational=%d softening=%d offset=%g]" % ((what,) + t), {"diag": list(t)})
     ctx.note("worst ratios to rounding unit: %s" % {k: round(v, 3) for k, v in worst.items()})
+    # WHFast512 exists only in the AVX512 build: its part runs in a process of its own (mc/w512.py)
+    from .. import w512
+    n_w512 = w512.run(ctx, "C04")
     cov = {
+        "whfast512_cases": n_w512,
         "evaluations": len(cfgs) * blocks + nt + len(mt) * 40 + len(dt),
         "distinct_nontrivial": len(cfgs) + nh + len(mt) + len(dt),
         "rule": "A: lattice runs (each measured at %d synchronisation points); B: distinct operation histories of depth <= %d over %d initial configurations x %d operations (measured after every operation); C: insertion orders x integrators x merge times; D: diagnostic cases" % (blocks, depth, len(INITIAL), len(OPS)),
